@@ -47,7 +47,35 @@ func (a *apiValue) log(f string, v ...any) {
 	}
 }
 
+// msgArena hands out message slices that are adjacent windows of one buffer: every message has
+// spare capacity that belongs to the message allocated after it, as with messages cut out of a
+// caller's receive or file buffer.
+type msgArena struct {
+	buf []byte
+	p   int
+}
+
+func (a *msgArena) put(m []byte) []byte {
+	if a.p+len(m) > len(a.buf) {
+		n := 4096
+		if len(m) > n {
+			n = len(m)
+		}
+		a.buf, a.p = make([]byte, n), 0
+	}
+	w := a.buf[a.p : a.p+len(m)]
+	copy(w, m)
+	a.p += len(m)
+	return w
+}
+
+var c01Arena msgArena
+
 func randomMsg(r *mon.Rand, prev []byte, allowBig bool) []byte {
+	return c01Arena.put(randomMsg0(r, prev, allowBig))
+}
+
+func randomMsg0(r *mon.Rand, prev []byte, allowBig bool) []byte {
 	switch r.Intn(10) {
 	case 0, 1:
 		return gen.MetaEvent(r, allowBig)
@@ -128,7 +156,7 @@ func buildHistory(r *mon.Rand, maxDelta uint32, allowBig bool) *apiValue {
 				if closed {
 					return
 				}
-				sh = append(sh, ref.Ev{Delta: d, Msg: m})
+				sh = append(sh, ref.Ev{Delta: d, Msg: append([]byte(nil), m...)}) // the model keeps its own copy
 				if bytes.Equal(m, ref.EOT) {
 					closed = true
 				}
@@ -387,7 +415,7 @@ func runC01(c *mon.Ctx) {
 			var sh []ref.Ev
 			for _, m := range [][]byte{append(append([]byte{0xF0}, p...), 0xF7), append([]byte{0xF7}, p...), ref.Meta(0x01, p), ref.Meta(0x7F, p), {0x90, 1, 1}} {
 				tr.Add(d, m)
-				sh = append(sh, ref.Ev{Delta: d, Msg: m})
+				sh = append(sh, ref.Ev{Delta: d, Msg: append([]byte(nil), m...)}) // the model keeps its own copy
 			}
 			tr.Close(d)
 			sh = append(sh, ref.Ev{Delta: d, Msg: ref.EOT})
